@@ -5,7 +5,7 @@ Probe registry: the join table is read completely, once, before the first output
 """
 import random
 
-from .. import env
+from .. import env, util
 from ..gen import queries as gq
 from ..model import refsem
 from . import common, c02
@@ -145,15 +145,92 @@ def leg_typed_join(ns, res, spec):
             res.sample({'leg': 'typed-join', 'front_end': front, 'A': [[show(v) for v in r] for r in A], 'B': [[show(v) for v in r] for r in B]})
 
 
+# ---------------------------------------------------------------------------------------------------------------
+# the same generated joins with both tables in CSV FILES (header lines, comment lines that are not records, ragged rows)
+
+def leg_csv_join(ns, res, spec):
+    import copy
+    import os
+    import shutil
+    import tempfile
+    from ..model import qast, refcsv
+    from . import c13
+    rng = random.Random(spec['seed'] * 94418953 + spec['i'])
+    d = tempfile.mkdtemp(prefix='rv-c04-')
+    try:
+        done = 0
+        for n in range(spec['n'] * 6):
+            if done >= spec['n']:
+                break
+            case = gen_case(rng, n)
+            A, B, an, bn = case['A'], case['B'], case['a_names'], case['b_names']
+            cells = [c for t in (A, B) for r in t for c in r] + list(an or []) + list(bn or [])
+            if any(not isinstance(c, str) or '\n' in c or '\r' in c for c in cells) or any(len(r) == 0 for t in (A, B) for r in t):
+                continue
+            if an is not None and (any(len(r) != len(an) for r in A[:1]) or any(len(r) != len(bn) for r in B[:1])):
+                continue
+            ref = refsem.run(case['q'], A, B, an, bn)
+            refd = {'error': None if ref.error is None else ref.error.cls, 'header': ref.header, 'rows': ref.rows or []}
+            if ref.error is None and not c13.acceptable(refd):
+                continue
+            done += 1
+            prefix = None
+            # a table without records (and without a header line) is an empty file
+            ta = c13.csv_text(A, an, ',', 'quoted') if (A or an is not None) else ''
+            tb = c13.csv_text(B, bn, ',', 'quoted') if (B or bn is not None) else ''
+            if n % 2 == 0:
+                ok = [p for p in ('#', '//', '%%', '>>') if not any(l.startswith(p) for l in (ta + tb).split('\n'))]
+                if ok:
+                    prefix = ok[n // 2 % len(ok)]
+                    ta = c13.with_comments(ta, prefix, rng) if ta else ta
+                    tb = c13.with_comments(tb, prefix, rng) if tb else tb
+            cd = os.path.join(d, 'c%d' % n)
+            os.mkdir(cd)
+            with open(os.path.join(cd, 'in.csv'), 'w', encoding='utf-8', newline='') as f:
+                f.write(ta)
+            with open(os.path.join(cd, 'jn.csv'), 'w', encoding='utf-8', newline='') as f:
+                f.write(tb)
+            q = copy.deepcopy(case['q'])
+            q['join']['table'] = 'jn.csv'
+            qtext = qast.render(q, qast.Ctx(an, bn), 'py')
+            err = rows = hdr = None
+            try:
+                ns.rbql.query_csv(qtext, os.path.join(cd, 'in.csv'), ',', 'quoted', os.path.join(cd, 'out.csv'), ',', 'quoted', 'utf-8', [], an is not None, prefix)
+                with open(os.path.join(cd, 'out.csv'), 'rb') as f:
+                    r = refcsv.read_text(f.read().decode('utf-8'), ',', 'quoted', 'utf-8', bool(ref.header))
+                rows, hdr = r.records, r.header
+            except Exception as e:
+                err = '%s: %s' % (util.error_class(e), str(e)[:120])
+            shutil.rmtree(cd, ignore_errors=True)
+            res.evaluations += 1
+            res.count('csv_join_runs')
+            res.count('csv_join_runs:' + ('comments' if prefix else 'plain'))
+            res.nontrivial('csv-join', qtext, ta, tb)
+            cs = dict(case, query_text=qtext, leg='csv-join', comment_prefix=prefix, input_text=ta, join_text=tb, engine='py')
+            if ref.error is not None:
+                if err is None:
+                    res.violation('py:csv-join-succeeds-where-reference-fails', '[py/query_csv] %s over files %r / %r returns %r ; the reference fails: %s' % (qtext, ta, tb, rows, ref.error), cs)
+                continue
+            exp = c13.norm_rows(ref.rows)
+            if err is not None or c13.norm_rows(rows) != exp:
+                res.violation('py:csv-join-pairs-differ:' + common.feature_sig(case['q']), '[py/query_csv] %s over input file %r and join file %r (comment prefix %r) -> %s ; reference %r' % (qtext, ta, tb, prefix, err or c13.norm_rows(rows), exp), cs)
+            if n % 53 == 0:
+                res.sample({'leg': 'csv-join', 'query': qtext, 'input_file': ta, 'join_file': tb, 'comment_prefix': prefix, 'reference_rows': exp[:4]})
+    finally:
+        shutil.rmtree(d, ignore_errors=True)
+
+
 def plan(tier, seed):
     k = NSHARDS[tier]
-    return [{'k': k, 'i': i, 'n': CASES[tier] // k} for i in range(k)] + [{'kind': 'typed-join', 'i': i, 'n': 120 if tier == 'quick' else 1500} for i in range(2 if tier == 'quick' else 6)]
+    return [{'k': k, 'i': i, 'n': CASES[tier] // k} for i in range(k)] + [{'kind': 'typed-join', 'i': i, 'n': 120 if tier == 'quick' else 1500} for i in range(2 if tier == 'quick' else 6)] + [{'kind': 'csv-join', 'i': i, 'n': 150 if tier == 'quick' else 2000} for i in range(2 if tier == 'quick' else 6)]
 
 
 def run_shard(spec, res):
     ns = env.import_rbql()
     if spec.get('kind') == 'typed-join':
         return leg_typed_join(ns, res, spec)
+    if spec.get('kind') == 'csv-join':
+        return leg_csv_join(ns, res, spec)
     rng = random.Random(spec['seed'] * 32452843 + spec['i'])
     js = common.JsLeg(res, PROPERTY, classify_js)
     try:
@@ -188,8 +265,8 @@ def run_shard(spec, res):
 def summarize(tier, seed, m):
     shapes = sorted(k[6:] for k in m['counters'] if k.startswith('shape:'))
     return {
-        'rule': 'pairs of small tables with duplicate keys on both sides (m x n blocks), ragged / empty A and B, None cells; JOIN / INNER JOIN / LEFT JOIN / LEFT OUTER JOIN / STRICT LEFT JOIN; 1-3 key pairs with == or =, either side order, NR / aNR / a.NR against bNR / b.NR / fields in every spelling; downstream rotating over plain select, WHERE (incl. b-field is None), ORDER BY, DISTINCT, DISTINCT COUNT, UNNEST, aggregates (COUNT, ARRAY_AGG of b-fields and bNR, grouped by an a-field), UPDATE with and without WHERE, TOP, b.* expansion. a typed front-ends leg: dataframes (int64 key next to float64 / object / int64 columns - all-numeric join frames included) through DataframeIterator + SingleDataframeRegistry and sqlite tables (INTEGER / REAL / TEXT) through SqliteRecordIterator + SqliteDbRegistry, integer keys up to 2**62 (beyond float precision), JOIN / LEFT JOIN / STRICT LEFT JOIN, three select shapes, every emitted field compared by value and type with a nested-loop pairing; distinct_nontrivial = distinct (query, A, B) with a non-empty reference result or a predicted error.',
-        'required': ['typed_join_runs:pandas', 'typed_join_runs:sqlite', 'py_cases', 'join_table_read_pattern_checks', 'fan_out_cases', 'predicted_error_a_side', 'predicted_error_b_side', 'js_cases', 'join:STRICT LEFT JOIN', 'join:LEFT OUTER JOIN', 'keypairs:3'],
+        'rule': 'pairs of small tables with duplicate keys on both sides (m x n blocks), ragged / empty A and B, None cells; JOIN / INNER JOIN / LEFT JOIN / LEFT OUTER JOIN / STRICT LEFT JOIN; 1-3 key pairs with == or =, either side order, NR / aNR / a.NR against bNR / b.NR / fields in every spelling; downstream rotating over plain select, WHERE (incl. b-field is None), ORDER BY, DISTINCT, DISTINCT COUNT, UNNEST, aggregates (COUNT, ARRAY_AGG of b-fields and bNR, grouped by an a-field), UPDATE with and without WHERE, TOP, b.* expansion. a typed front-ends leg: dataframes (int64 key next to float64 / object / int64 columns - all-numeric join frames included) through DataframeIterator + SingleDataframeRegistry and sqlite tables (INTEGER / REAL / TEXT) through SqliteRecordIterator + SqliteDbRegistry, integer keys up to 2**62 (beyond float precision), JOIN / LEFT JOIN / STRICT LEFT JOIN, three select shapes, every emitted field compared by value and type with a nested-loop pairing; a CSV leg: the generated joins (string cells) with both tables in files - header lines, ragged rows, and in every other case comment lines in both files that are not records - through query_csv, rows compared with the reference after the stringification a CSV sink applies; distinct_nontrivial = distinct (query, A, B) with a non-empty reference result or a predicted error.',
+        'required': ['csv_join_runs:comments', 'csv_join_runs:plain', 'typed_join_runs:pandas', 'typed_join_runs:sqlite', 'py_cases', 'join_table_read_pattern_checks', 'fan_out_cases', 'predicted_error_a_side', 'predicted_error_b_side', 'js_cases', 'join:STRICT LEFT JOIN', 'join:LEFT OUTER JOIN', 'keypairs:3'],
         'extra': {'shapes_seen': shapes},
         'assumptions': ['rv/model/refsem.py expand() is the join semantics of the statement'],
     }
